@@ -107,3 +107,15 @@ Example wf_scope_nonvacuous :
 Proof.
   vm_compute. split; [|reflexivity]. repeat constructor.
 Qed.
+
+(* do steps in parallel, do* in sequence:
+   (do  ((i 0 (+ i 1)) (j 10 (+ i j))) ((= i 3) (list i j)))  =>  (3 13)
+   (do* ((i 0 (+ i 1)) (j 10 (+ i j))) ((= i 3) (list i j)))  =>  (3 16)   in every mode *)
+Definition ex_do (star : bool) :=
+  [EDo star [("i", I 0, Some (EPrim PAdd [EVar "i"; I 1])); ("j", I 10, Some (EPrim PAdd [EVar "i"; EVar "j"]))]
+     (EPrim PNumEq [EVar "i"; I 3]) [EPrim PList [EVar "i"; EVar "j"]] []].
+Example do_parallel_dostar_sequential :
+  forallb (fun m => match fst (run m 60 (ex_do false)), fst (run m 60 (ex_do true)) with
+                    | Ok (VList [VInt 3; VInt 13]), Ok (VList [VInt 3; VInt 16]) => true | _, _ => false end)
+          [Slip; Ref; Chk] = true.
+Proof. vm_compute; reflexivity. Qed.
